@@ -12,6 +12,7 @@ Games ==
       [] Family = "deadall" -> DescribeAll("dead", DeadGames)
       [] Family = "hist" -> HistFamily
       [] Family = "perm" -> PermFamily
+      [] Family = "tiny" -> DescribeAll("tiny", RandomSubset(K, TinyGames))
       [] Family = "ties" -> DescribeAll("ties", RandomSubset(K, TieGames))
       [] Family = "tiesall" -> DescribeAll("ties", TieGames)
 
